@@ -239,7 +239,7 @@ class Holder:
         self.reads = []
 
 
-def build(entries_cond, entries_unless, providers, kinds, decl="to"):
+def build(entries_cond, entries_unless, providers, kinds, decl="to", falsy=()):
     """providers: name -> [prov...]; kinds: (name, prov) -> method|property|attr|async.  Returns (cls, objs factory)."""
     uid = next(UID)
     Hd = Holder()
@@ -284,8 +284,9 @@ def build(entries_cond, entries_unless, providers, kinds, decl="to"):
     go = {"to": lambda: s1.to(s2, **kw), "from": lambda: s2.from_(s1, **kw), "any": lambda: s2.from_.any(**kw)}[decl]()
     body = dict(ns["machine"], s1=s1, s2=s2, go=go, back=s2.to(s1))
     cls = types.new_class(f"E{uid}", (StateMachine,), {}, lambda d: d.update(body))
-    Model = type(f"E{uid}_model", (), dict(ns["model"]))
-    L0 = type(f"E{uid}_l0", (), dict(ns["l0"]))
+    # provider objects may be falsy (an empty container-like domain object / recorder): they provide their names all the same
+    Model = type(f"E{uid}_model", (), dict(ns["model"], **({"__len__": lambda self: 0} if "model" in falsy else {})))
+    L0 = type(f"E{uid}_l0", (), dict(ns["l0"], **({"__bool__": lambda self: False} if "l0" in falsy else {})))
     return cls, Model, L0, Hd, attrs
 
 
@@ -383,8 +384,10 @@ def run_case(case):
     with warnings.catch_warnings():
         warnings.simplefilter("ignore")
         try:
-            cls, Model, L0, Hd, attrs = build([e["lib"] for e in cond], [e["lib"] for e in unless], providers, kinds, case.get("decl", "to"))
+            cls, Model, L0, Hd, attrs = build([e["lib"] for e in cond], [e["lib"] for e in unless], providers, kinds, case.get("decl", "to"), case.get("falsy", ()))
             labels.add("declared-with:" + case.get("decl", "to"))
+            for p_ in case.get("falsy", ()):
+                labels.add("falsy-provider:" + p_)
             objs = {"model": Model(), "l0": L0()}
             sm = cls(objs["model"], listeners=[objs["l0"]], allow_event_without_transition=True)
             objs["machine"] = sm
@@ -588,7 +591,7 @@ def positive(draw, tier):
                 env[f"{n}@{p}"] = draw(st.sampled_from(STR_VALUES if n in STR_NAMES else NUM_VALUES if (used[n] or n in NUM_NAMES) else ANY_VALUES))
         vals.append(env)
     return {"kind": "positive", "cond": cond, "unless": unless, "providers": providers, "kinds": kinds, "valuations": vals,
-            "decl": draw(st.sampled_from(["to", "to", "from", "any"]))}
+            "decl": draw(st.sampled_from(["to", "to", "from", "any"])), "falsy": [p for p in ("model", "l0") if draw(st.integers(0, 5)) == 0]}
 
 
 @st.composite
